@@ -263,7 +263,9 @@ ATTR_FILE_NAMES = ["a", "b.txt", "c.txt", "d.log", "e.LOG", "f.tar.gz", "README"
                    # characters that mean something to a pattern engine but nothing to `=`: exact, case-sensitive
                    "data[1].txt", "Data[1].txt", "q(1)+.c", "Q(1)+.c", "w{2}.h", "back\\slash", "c^d$.e", "p|q.r",
                    # extensions that look like numbers, next to ones that do not (man pages, rotated logs)
-                   "ls.1", "syslog.2", "m.10", "x.9a", "y.1x", "old.007"]
+                   "ls.1", "syslog.2", "m.10", "x.9a", "y.1x", "old.007",
+                   # wildcard characters inside attribute values (they are not patterns when two columns are compared)
+                   "a.*", "q.?", "*", "s*"]
 ATTR_DIR_NAMES = ["src", "doc", "a", "b", "t1", "t2", "lib", "x.d", "bin", "size", ".git2", "Zed", "d[0]", "back\\dir"]
 
 
